@@ -189,7 +189,9 @@ fn importer_text(own_fn: &str, names: &[(String, String)]) -> (String, Vec<(Stri
 pub fn gen_session(seed: u64, run: u64, _thorough: bool) -> Session {
     let mut rng = Rng::new(mix(mix(seed, run), 17));
     let hash_seed = rng.next();
-    let root = scratch_root("C17", seed, run);
+    // where the whole tree sits on disk: a checkout under ~/src, a fixture under test/..., a
+    // build directory - no directory ABOVE a package root may influence module names
+    let root = format!("{}{}", scratch_root("C17", seed, run), rng.pick(&["", "", "", "/src", "/test/deep", "/build", "/src/test"]));
     let pkgs = gen_packages(&mut rng);
     // every module name that exists anywhere, with the function its module defines per package
     let all_names: BTreeSet<String> = pkgs.iter().flat_map(|p| p.modules.iter().map(|m| m.0.clone())).collect();
